@@ -148,23 +148,38 @@ def rule_precedence(ctx):
 
 
 def quantified_child_parenthesised(fx, fb, m, qv, cv):
-    """Does Display for Formula print the body of a quantifier in parentheses?  Either fmt_unary decides, or the arm handles it itself."""
-    e = strip(fb["body"])
-    while e.get("k") == "Block" and not e.get("stmts") and "expr" in e:
-        e = strip(e["expr"])
-    if e.get("k") != "Match":
-        raise AnalysisGap("Display for Formula is not a match")
-    binds = {}
-    arm = peval.select_arm(e, qv, binds)
-    body = strip(arm["body"])
-    while body.get("k") == "Block" and not body.get("stmts") and "expr" in body:
-        body = strip(body["expr"])
-    if body.get("k") == "Match":
-        # nested match on the body of the quantifier
-        inner_arm = peval.select_arm(body, cv, {})
-        ib = inner_arm["body"]
-        return _printed_in_parens(ib, m, qv, cv)
-    return _printed_in_parens(body, m, qv, cv)
+    """Does Display for Formula print the body `cv` of the quantifier `qv` in parentheses?  Display::fmt is evaluated on that concrete node: either
+    it hands the body to fmt_unary (then the precedence model decides) or it writes it itself (then the template decides)."""
+    import re as _re
+    from ..sym import Eval
+    child = prec.to_term(cv)
+    node = prec.to_term(qv)
+    fields = dict(node[2])
+    fields["formula"] = child
+    node = ("ctor", node[1], tuple(sorted(fields.items())))
+    me = ("ctor", "Format", (("0", node),))
+    ev = Eval(fx, inline_depth=0)
+    ev.function(fb, [me, ("param", "f")])
+    body_fmt = ("ctor", "Format", (("0", child),))
+    verdicts = []
+    for conds, loops, item in ev.out:
+        if conds or loops:
+            raise AnalysisGap("quantifier arm: conditional output on a concrete node: %r" % (conds,))
+        if item[0] == "emit" and item[1] == "Precedence::fmt_unary" and item[2][1:] == (body_fmt,):
+            verdicts.append(m.parens(qv, cv, "inner"))
+        elif item[0] == "write" and body_fmt in item[2]:
+            t = item[1]
+            if _re.fullmatch(r"\(\{\w*\}\)", t):
+                verdicts.append(True)
+            elif _re.fullmatch(r"\{\w*\}", t):
+                verdicts.append(False)
+            else:
+                raise AnalysisGap("quantifier arm: the body is written with the template %r" % t)
+        elif item[0] == "emit" and item[1] == "Display::fmt" and item[2] == (body_fmt,):
+            verdicts.append(False)
+    if len(verdicts) != 1:
+        raise AnalysisGap("quantifier arm: the body is printed %d times" % len(verdicts))
+    return verdicts[0]
 
 
 def _printed_in_parens(body, m, qv, cv):
@@ -219,12 +234,16 @@ def rule_lists(ctx):
     qp = printers.evaluate(fx, qb)
     lits = [i[1] for _, _, i in qp.out if i[0] == "write"]
     from .. import leaves
-    vw = [(loops, item) for _, loops, item in qp.out if item[0] == "write" and item[1] == " {var}"]
+    import re as _re3
+    vw = [(loops, item) for _, loops, item in qp.out if item[0] == "write" and _re3.fullmatch(r" \{\w*\}", item[1])]
     okv = bool(vw)
     for loops, item in vw:
         okv = okv and leaves.over_all(loops, ("place", "self.0.variables"), item[2]) == leaves.norm((("ctor", "Format", (("0", ("each", ("place", "self.0.variables"))),)),))
     ctx.add("LIST", "Quantification:every-variable", okv, ctx.site(qb), "the variable list is written by one loop over all of `variables` (no filter / dedup / skip)")
-    ctx.add("LIST", "Quantification", lits == ["forall", "exists", " {var}"], ctx.site(qb), "a quantification is the quantifier followed by ` variable` for every variable: %s" % lits)
+    import re as _re2
+    alits = [_re2.sub(r"\{\w*\}", "{}", x) for x in lits]
+    via_printer = any(i_[0] == "emit" and i_[1] == "Display::fmt" and leaves.norm(i_[2]) == leaves.norm((("ctor", "Format", (("0", ("place", "self.0.quantifier")),)),)) and not c_ and not l_ for c_, l_, i_ in qp.out)
+    ctx.add("LIST", "Quantification", alits == ["forall", "exists", " {}"] or (via_printer and alits == [" {}"]), ctx.site(qb), "a quantification is the quantifier followed by ` variable` for every variable: %s" % lits)
     ab = printers.display_impl(fx, "fol", "AnnotatedFormula")
     ap = printers.evaluate(fx, ab)
     conds = [(i[1] if i[0] == "write" else "<>", bool(c)) for c, _, i in ap.out]
